@@ -2,7 +2,7 @@
 //! programs forking compute children), and VM programs whose compute children differ by index.
 //! Pure data, shared with the real-rayon conformance binary.
 use crate::ckh::*;
-use crate::refvm::RVm;
+use crate::refvm::{RVm, W};
 use essential_asm::{self as asm, Op};
 
 fn sol(pred: usize, contract: u8) -> SolCase {
@@ -41,6 +41,18 @@ pub fn checker_inputs() -> Vec<(String, CkCase)> {
     let bad = PredCase { nodes: vec![(l, Role::LeafFalse0), (l, Role::Fails)], edges: vec![] };
     let good = PredCase { nodes: vec![(l, Role::LeafTrue), (l, Role::LeafDump)], edges: vec![] };
     add("good bad good bad", vec![good, bad], vec![sol(0, 0xC1), sol(1, 0xC2), sol(0, 0xC3), sol(1, 0xC4)]);
+    // solutions of one contract COMPUTE different values for one key (which solution is named as
+    // the one in conflict must not depend on which task gets there first); the first solution
+    // computes several other mutations before the contested one, the others only that one
+    let raw = |muts: &[(W, W)]| {
+        let mut ws = vec![muts.len() as W];
+        for (k, val) in muts {
+            ws.extend([1, *k, 1, *val]);
+        }
+        PredCase { nodes: vec![(l, Role::LeafRaw(ws))], edges: vec![] }
+    };
+    add("conflicting computed mutations", vec![raw(&[(1, 1), (2, 2), (3, 3), (9, 5)]), raw(&[(9, 6)]), raw(&[(9, 7)])], vec![sol(0, 0xC1), sol(1, 0xC1), sol(2, 0xC1)]);
+    add("conflicting computed mutations, agreeing pair first", vec![raw(&[(9, 5)]), raw(&[(9, 5), (8, 1)]), raw(&[(8, 2)])], vec![sol(0, 0xC1), sol(1, 0xC1), sol(2, 0xC1), sol(2, 0xC2)]);
     v
 }
 
